@@ -283,7 +283,8 @@ def run_qv(infile, outfile, timeout=900):
 
 
 def run_model(infile, outfile, timeout=900):
-    rc, out, dt = sh([os.path.join(CACHE, 'ml', 'rsm'), infile, outfile], timeout=timeout)
+    # the extracted list functions are not tail-recursive: frames of several hundred thousand points need a deep stack
+    rc, out, dt = sh(f"ulimit -s unlimited 2>/dev/null || ulimit -s 1000000; exec {os.path.join(CACHE, 'ml', 'rsm')} {infile} {outfile}", timeout=timeout)
     return rc, out, dt
 
 
